@@ -107,7 +107,7 @@ def err_enum(exc):
         return "capacity"
     if "superior to the number of instances specified" in msg or "instances specified by the user" in msg:
         return "fixed-instances"
-    if "could not be broadcast" in msg:
+    if "could not be broadcast" in msg or "does not match length of index" in msg:
         return "shape"
     if name == "NotImplementedError":
         return "not-implemented"
